@@ -168,6 +168,15 @@ static void generator_real(size_t m) {
     Bool same = Bool::T();
     for (size_t k = 0; k < c; k++) same = same && sym::eq(h[k], own[k]);
     expect("generator-supplied-grid", outcome([&] { bspline::BSplineGenerator<Real> g2(t, H); }), same);
+    {
+      // a supplied grid that continues beyond the knots at either end (one more point) never matches
+      Real extra = Real::var("extra");
+      Engine::get().assume(sym::gt(extra, h.back()));
+      std::vector<Real> longer_back = h;
+      longer_back.push_back(extra);
+      Grid<Real> HB(longer_back);
+      expect("generator-supplied-grid-longer-at-the-end", outcome([&] { bspline::BSplineGenerator<Real> g2(t, HB); }), Bool::F());
+    }
     if (c >= 3) {
       std::vector<Real> shorter(h.begin(), h.end() - 1);
       Grid<Real> H2(shorter);
